@@ -20,6 +20,14 @@ import (
 type Item struct {
 	ID int64 `gorm:"primaryKey"`
 	V  int64
+	N  *int64 // NULL in every third row
+}
+
+// CK: a model with a composite primary key (single-record finders whose destination carries a key)
+type CK struct {
+	A string `gorm:"primaryKey"`
+	B int64  `gorm:"primaryKey;autoIncrement:false"`
+	V int64
 }
 
 type Row struct {
@@ -96,6 +104,8 @@ type Input struct {
 	BS   int64  `json:"bs"` // 0 = FindInBatches not run
 	// PtrBatch: FindInBatches fills a slice of pointers instead of a slice of structs
 	PtrBatch bool `json:"ptr_batch,omitempty"`
+	// SelNull: the select-columns comparison uses Select("n"), one nullable column (known finding)
+	SelNull bool `json:"sel_null,omitempty"`
 }
 
 type Obs struct {
@@ -203,8 +213,16 @@ func asInt(v interface{}) int64 {
 	return -999999
 }
 
-func run(db *gorm.DB, in Input) Obs {
-	var o Obs
+func run(db *gorm.DB, in Input) (o Obs) {
+	defer func() {
+		// a panic inside gorm is an observation of this case, not the end of the run
+		if r := recover(); r != nil {
+			o.Errs = append(o.Errs, fmt.Sprint("panic: ", r))
+			if o.Batches == nil {
+				o.Batches = [][]Row{}
+			}
+		}
+	}()
 	fail := func(where string, err error) {
 		if err != nil {
 			o.Errs = append(o.Errs, where+": "+err.Error())
@@ -215,7 +233,11 @@ func run(db *gorm.DB, in Input) Obs {
 	if len(in.Tbl) > 0 {
 		items := make([]Item, len(in.Tbl))
 		for i, r := range in.Tbl {
-			items[i] = Item{r.ID, r.V}
+			items[i] = Item{ID: r.ID, V: r.V}
+			if r.ID%3 != 0 {
+				n := r.ID
+				items[i].N = &n
+			}
 		}
 		fail("insert", db.Create(&items).Error)
 	}
@@ -372,7 +394,81 @@ func run(db *gorm.DB, in Input) Obs {
 		fail("batches", r.Error)
 		o.BatchesRA = r.RowsAffected
 	}
+	selectedColumns(db, in, &o)
+	compositeKeys(db, in, &o)
 	return o
+}
+
+// selectedColumns: with a Select on the chain Count still equals the number of rows Find returns
+// (structs and maps); chains without limit / offset only. Violations are reported through Errs.
+func selectedColumns(db *gorm.DB, in Input, o *Obs) {
+	if len(in.Lops) > 0 {
+		return
+	}
+	sels := [][]interface{}{{"n", "v"}, {"v", "n"}, {[]string{"n", "v"}}, {"n, v"}, {"v"}, {"id", "n"}}
+	sel := sels[(len(in.Tbl)+int(in.BS))%len(sels)]
+	if in.SelNull {
+		sel = []interface{}{"n"}
+	}
+	var cnt int64
+	if err := chain(db, in).Model(&Item{}).Select(sel[0], sel[1:]...).Count(&cnt).Error; err != nil {
+		o.Errs = append(o.Errs, "sel_count: "+err.Error())
+		return
+	}
+	var items []Item
+	if err := chain(db, in).Select(sel[0], sel[1:]...).Find(&items).Error; err != nil {
+		o.Errs = append(o.Errs, "sel_find: "+err.Error())
+		return
+	}
+	var maps []map[string]interface{}
+	if err := chain(db, in).Model(&Item{}).Select(sel[0], sel[1:]...).Find(&maps).Error; err != nil {
+		o.Errs = append(o.Errs, "sel_maps: "+err.Error())
+		return
+	}
+	if cnt != int64(len(items)) || cnt != int64(len(maps)) || len(items) != len(o.Find) {
+		o.Errs = append(o.Errs, fmt.Sprintf("Select(%v): Count %d, Find %d rows, maps %d rows, Find without Select %d rows", sel, cnt, len(items), len(maps), len(o.Find)))
+	}
+}
+
+// compositeKeys: First / Take / Last into a destination that carries a composite key return that
+// row, and ErrRecordNotFound exactly when no row has the key.
+func compositeKeys(db *gorm.DB, in Input, o *Obs) {
+	db.Exec("DELETE FROM cks")
+	want := map[[2]int64]int64{}
+	for _, r := range in.Tbl {
+		a, b := r.ID%2, r.ID/2%3+1 // (zero is no key value)
+		if _, dup := want[[2]int64{a, b}]; dup {
+			continue
+		}
+		want[[2]int64{a, b}] = r.V
+		if err := db.Create(&CK{A: []string{"eu", "us"}[a], B: b, V: r.V}).Error; err != nil {
+			o.Errs = append(o.Errs, "ck_insert: "+err.Error())
+			return
+		}
+	}
+	if len(want) == 0 {
+		return
+	}
+	finders := map[string]func(tx *gorm.DB, d *CK) *gorm.DB{
+		"first": func(tx *gorm.DB, d *CK) *gorm.DB { return tx.First(d) },
+		"take":  func(tx *gorm.DB, d *CK) *gorm.DB { return tx.Take(d) },
+		"last":  func(tx *gorm.DB, d *CK) *gorm.DB { return tx.Last(d) },
+	}
+	for a := int64(0); a < 2; a++ {
+		for b := int64(1); b <= 3; b++ {
+			v, exists := want[[2]int64{a, b}]
+			for _, name := range []string{"first", "take", "last"} {
+				d := CK{A: []string{"eu", "us"}[a], B: b}
+				r := finders[name](db.Session(&gorm.Session{}), &d)
+				switch {
+				case exists && (r.Error != nil || d.V != v || d.B != b):
+					o.Errs = append(o.Errs, fmt.Sprintf("%s(&CK{%s,%d}): got %+v err %v, row has v=%d", name, d.A, b, d, r.Error, v))
+				case !exists && !errors.Is(r.Error, gorm.ErrRecordNotFound):
+					o.Errs = append(o.Errs, fmt.Sprintf("%s(&CK{%s,%d}): no such row, got %+v err %v", name, []string{"eu", "us"}[a], b, d, r.Error))
+				}
+			}
+		}
+	}
 }
 
 // ---- Gallina printing ----
@@ -512,14 +608,19 @@ func shape(in Input) string {
 	return sb.String()
 }
 
-// sig: known-finding signature of the INPUT (none at present).
-func sig(in Input) string { return "" }
+// sig: known-finding signature of the INPUT.
+func sig(in Input) string {
+	if in.SelNull && len(in.Lops) == 0 {
+		return "count-of-single-nullable-selected-column"
+	}
+	return ""
+}
 
 func main() {
 	a := lib.ParseArgs()
 	db, _, _, err := gdb.Open(gdb.Opt{})
 	lib.Must(err)
-	lib.Must(db.AutoMigrate(&Item{}))
+	lib.Must(db.AutoMigrate(&Item{}, &CK{}))
 	out := lib.NewOut(a.Out, "C15")
 
 	add := func(kind string, in Input) {
@@ -588,6 +689,10 @@ func main() {
 				}
 			}
 		}
+	}
+	// the known shape: Count over a Select of one nullable column
+	for n := 3; n <= 6; n++ {
+		add("known-shape", Input{Tbl: genTable(r, n), Cond: Cond{Kind: "all"}, Ord: "none", SelNull: true})
 	}
 	budget := 500
 	if a.Tier == "thorough" {
